@@ -11,7 +11,7 @@ def sh(cmd, **kw):
 def main():
     repo, verif, tier = sys.argv[1], sys.argv[2], sys.argv[3]
     t0 = time.time()
-    B = os.path.join(verif, "build", "xbuild")
+    B = os.path.join(sys.argv[4] if len(sys.argv) > 4 else os.path.join(verif, "build"), "xbuild")
     os.makedirs(B, exist_ok=True)
     inc = ["-I" + os.path.join(repo, "include"), "-DBINSON_PARSER_WITH_PRINT", "-DVF_ROOT=\"%s\"" % verif]
     cfgs = []
@@ -125,8 +125,9 @@ def main():
                        "samples": samples or ["(no configuration ran)"]},
           "assumptions": ["the machine's libc renders %f identically for all builds (same libc)", "configurations that cannot be built in this image (e.g. -m32 without a 32-bit runtime) are listed as skipped"],
           "wall_s": round(time.time() - t0, 2), "violations": unknown}
-    os.makedirs(os.path.join(verif, "evidence"), exist_ok=True)
-    json.dump(ev, open(os.path.join(verif, "evidence", "C18.json"), "w"), indent=1)
+    evdir = os.environ.get("VERIF_EVIDENCE_DIR") or os.path.join(verif, "evidence")
+    os.makedirs(evdir, exist_ok=True)
+    json.dump(ev, open(os.path.join(evdir, "C18.json"), "w"), indent=1)
     print("xbuild C18 %s: configurations=%d scenarios=%d observations/config=%d violations=%d wall=%.1fs" % (tier, len(table), len(ref or {}), obs, unknown, time.time() - t0))
     if len(table) < 12: print("HARNESS-ERROR: fewer than 12 configurations ran"); sys.exit(2)
     sys.exit(1 if unknown else 0)
